@@ -36,32 +36,46 @@ pub struct ExecOut<A> {
 
 #[derive(Debug, Clone)]
 pub enum ExecErr {
-    /// violation at history index i
-    Violation(usize, String),
+    /// violation at history index i (+ the marks of the violating step: the situation a vacuity
+    /// guard counts has occurred even if the step was judged a violation)
+    Violation(usize, String, Vec<String>),
     Panic(String),
 }
 
 pub type Maker<S> = Arc<dyn Fn() -> S + Send + Sync>;
 
-/// One execution: fresh thread, replay `hist`, report the state reached.
-pub fn exec<S: Sys + 'static>(make: &Maker<S>, seed: u64, hist: &[S::Act]) -> Result<ExecOut<S::Act>, ExecErr> {
+fn run_history<S: Sys>(make: &Maker<S>, hist: &[S::Act]) -> Result<ExecOut<S::Act>, ExecErr> {
+    let mut s = make();
+    let _ = s.take_marks();
+    let n = hist.len();
+    for (i, a) in hist.iter().enumerate() {
+        if i + 1 == n {
+            let _ = s.take_marks();
+        }
+        if let Err(m) = s.step(a) {
+            return Err(ExecErr::Violation(i, m, s.take_marks()));
+        }
+    }
+    Ok(ExecOut { canon: mc::bfs::h128(&s.canon()), actions: s.actions(), marks: s.take_marks(), nontrivial: s.nontrivial() })
+}
+
+/// One execution on a real fresh OS thread (the reference semantics).
+pub fn exec_thread<S: Sys + 'static>(make: &Maker<S>, seed: u64, hist: &[S::Act]) -> Result<ExecOut<S::Act>, ExecErr> {
     let make = make.clone();
     let hist: Vec<S::Act> = hist.to_vec();
-    let r = isolated(seed, move || {
-        let mut s = make();
-        let _ = s.take_marks();
-        let n = hist.len();
-        for (i, a) in hist.iter().enumerate() {
-            if i + 1 == n {
-                let _ = s.take_marks();
-            }
-            if let Err(m) = s.step(a) {
-                return Err(ExecErr::Violation(i, m));
-            }
-        }
-        Ok(ExecOut { canon: mc::bfs::h128(&s.canon()), actions: s.actions(), marks: s.take_marks(), nontrivial: s.nontrivial() })
-    });
-    match r {
+    match isolated(seed, move || run_history(&make, &hist)) {
+        Ok(x) => x,
+        Err(p) => Err(ExecErr::Panic(format!("{p} at {}", mc::shim::last_panic_loc().unwrap_or_default()))),
+    }
+}
+
+/// One execution: replay `hist` from scratch in the state "fresh thread, entropy stream `seed`,
+/// clock at origin" — in place when `fresh::reset` is available, else on a fresh thread.
+pub fn exec<S: Sys + 'static>(make: &Maker<S>, seed: u64, hist: &[S::Act]) -> Result<ExecOut<S::Act>, ExecErr> {
+    if !crate::fresh::reset(seed) {
+        return exec_thread(make, seed, hist);
+    }
+    match mc::catch(|| run_history(make, hist)) {
         Ok(x) => x,
         Err(p) => Err(ExecErr::Panic(format!("{p} at {}", mc::shim::last_panic_loc().unwrap_or_default()))),
     }
@@ -166,10 +180,12 @@ impl<S: Sys + 'static> Search<S> {
                 // determinism self-test: the first K executions are run twice
                 if count && self.stats.selftested < self.selftest_k {
                     self.stats.selftested += 1;
-                    let r2 = exec(&self.make, self.seed, &h2);
+                    // the re-run uses a real fresh OS thread: checks determinism *and* that the
+                    // in-place reset (fresh.rs) is equivalent to a fresh thread
+                    let r2 = exec_thread(&self.make, self.seed, &h2);
                     let same = match (&r, &r2) {
                         (Ok(x), Ok(y)) => x.canon == y.canon && x.marks == y.marks && format!("{:?}", x.actions) == format!("{:?}", y.actions),
-                        (Err(ExecErr::Violation(i, m)), Err(ExecErr::Violation(j, n))) => i == j && m == n,
+                        (Err(ExecErr::Violation(i, m, _)), Err(ExecErr::Violation(j, n, _))) => i == j && m == n,
                         (Err(ExecErr::Panic(m)), Err(ExecErr::Panic(n))) => m == n,
                         _ => false,
                     };
@@ -212,7 +228,12 @@ impl<S: Sys + 'static> Search<S> {
                             }
                         }
                     }
-                    Err(ExecErr::Violation(i, m)) => {
+                    Err(ExecErr::Violation(i, m, marks)) => {
+                        if count && i + 1 == h2.len() {
+                            for mk in &marks {
+                                *self.stats.marks.entry(mk.clone()).or_insert(0) += 1;
+                            }
+                        }
                         if i + 1 < h2.len() {
                             self.machinery.push(format!("NONDETERMINISM: replay of an accepted prefix diverged at step {i} of {h2:?}: {m}"));
                         } else if count {
@@ -322,7 +343,7 @@ pub fn replay<S: Sys + 'static>(make: Maker<S>, seed: u64, case: &Value) -> Resu
     let hist: Vec<S::Act> = serde_json::from_value(case["history"].clone()).map_err(|e| format!("bad history in replay file: {e}"))?;
     match exec(&make, seed, &hist) {
         Ok(_) => Ok(None),
-        Err(ExecErr::Violation(_, m)) => Ok(Some(m)),
+        Err(ExecErr::Violation(_, m, _)) => Ok(Some(m)),
         Err(ExecErr::Panic(p)) => Ok(Some(format!("panic {} :: {p}", p.rsplit(" at ").next().unwrap_or("")))),
     }
 }
